@@ -8,6 +8,7 @@
 using namespace vf;
 
 struct KP { long long key; long long payload; };
+VF_DECOY_ORDER(KP, key)
 struct KPLess { bool operator()(const KP& a, const KP& b) const { return a.key < b.key; } };
 
 template <class T, class Cmp, class Mk, class Un>
